@@ -482,6 +482,8 @@ def lattice_quad(rng, n=(2, 2), amp=0.1):
 def place(rng, P):
     """Random rigid placement and size so that correspondence cases are not axis-aligned."""
     s = math.exp(rng.uniform(math.log(0.3), math.log(30)))
+    if rng.random() < 0.25:
+        s = math.exp(rng.uniform(math.log(0.01), math.log(0.3)))  # centimetre- and millimetre-sized blocks
     return (np.asarray(P) * s) @ rand_rotation(rng).T + np.array([rng.uniform(-5, 5) for _ in range(3)])
 
 
@@ -520,6 +522,37 @@ def same_outcome(a, b, tol):
     if a[0] == "error":
         return True
     return abs(a[1] - b[1]) <= tol
+
+
+def guard_inactive(kind, T, P, addressing, factor=20.0):
+    """True when every length / triangle area the measure normalises by is `factor` times above the library's small-number
+    guard, i.e. the geometry is of a size at which the value is a function of the shape alone"""
+    from classy_blocks.util.constants import VSMALL
+    lim = factor * VSMALL
+    P = np.asarray(P, dtype=float)
+    for cell in addressing:
+        pts = P[list(cell)]
+        for i in range(len(pts)):
+            for j in range(i + 1, len(pts)):
+                if np.linalg.norm(pts[i] - pts[j]) < lim:
+                    return False
+        faces = [list(s) for s in T] if kind == "hex" else [list(range(4))]
+        for fc in faces:
+            if len(fc) != 4:
+                continue
+            q = pts[fc]
+            c = q.mean(axis=0)
+            for j in range(4):
+                if np.linalg.norm(np.cross(q[j] - c, q[(j + 1) % 4] - c)) < lim:
+                    return False
+                if np.linalg.norm(np.cross(q[(j + 1) % 4] - q[j], q[(j - 1) % 4] - q[j])) < lim:
+                    return False
+    return True
+
+
+def min_edge(P, addressing):
+    P = np.asarray(P, dtype=float)
+    return min(float(np.linalg.norm(P[c[i]] - P[c[j]])) for c in addressing for i in range(len(c)) for j in range(i + 1, len(c)))
 
 
 def oracle_invariance(kind, T, points, addressing, rng, n_rigid=2, n_scale=2, renumberings=None, grid=True):
@@ -561,8 +594,15 @@ def oracle_invariance(kind, T, points, addressing, rng, n_rigid=2, n_scale=2, re
         R = rand_rotation(rng)
         t = np.array([rng.uniform(-10, 10) for _ in range(3)])
         compare("rigid", P @ R.T + t, addressing, dict(R=R.tolist(), t=t.tolist()))
-    for _ in range(n_scale):
+    for k in range(n_scale):
         s = math.exp(rng.uniform(math.log(0.1), math.log(100)))
+        if k == 0:
+            # down to millimetre-sized cells, as long as the small-number guard stays out of play
+            s2 = min(1.0, max(0.1, rng.uniform(0.01, 0.03) / min_edge(P, addressing)))
+            if s2 < 1.0 and guard_inactive(kind, T, P * s2, addressing):
+                s = s2
+        if not (guard_inactive(kind, T, P, addressing, 5.0) and guard_inactive(kind, T, P * s, addressing, 5.0)):
+            continue  # sizes at which the guard takes part are outside the statement
         compare("scale", P * s, addressing, dict(s=s))
     rots = rotations(kind)
     if renumberings is None:
